@@ -37,6 +37,7 @@ type VerifC31Params struct {
 	PacketLen                    int // payload length of each application packet (>= 4)
 	ClientRequest, ServerRequest bool // explicit requestKeyExchange racing with the traffic
 	Threshold                    uint64 // RekeyThreshold for both sides (0 = default, i.e. no threshold re-key here)
+	LateWriter                   int // packets written by a goroutine started after the prefill (lowest scheduling priority: it is the one left waiting on the full queue)
 	Prefill                      int // packets the client queues right after requesting a re-key (to overflow the pending queue)
 }
 
@@ -89,7 +90,7 @@ func VerifC31Run(p VerifC31Params) *VerifC31Result {
 	}
 
 	var mu sync.Mutex
-	wantS := p.ClientWriters*p.PerWriter + p.Prefill
+	wantS := p.ClientWriters*p.PerWriter + p.Prefill + p.LateWriter
 	wantC := p.ServerWriters * p.PerWriter
 	allS, allC := make(chan struct{}), make(chan struct{})
 	reader := func(t *handshakeTransport, got *[]uint32, want int, all chan struct{}, who string) {
@@ -184,6 +185,21 @@ func VerifC31Run(p VerifC31Params) *VerifC31Result {
 				res.MaxPending = l
 			}
 			client.mu.Unlock()
+		}
+		if p.LateWriter > 0 {
+			wg.Add(1)
+			go func() {
+				defer wg.Done()
+				for s := 0; s < p.LateWriter; s++ {
+					if err := client.writePacket(verifC31Pkt(98, s, p.PacketLen)); err != nil {
+						mu.Lock()
+						res.WriteErrs++
+						res.Errs = append(res.Errs, fmt.Sprintf("late writer: %v", err))
+						mu.Unlock()
+						return
+					}
+				}
+			}()
 		}
 	}
 	wg.Wait() // no writer blocks forever while the peer keeps reading
